@@ -1,0 +1,77 @@
+//go:build verif
+
+// Contracts for the deductive checker in /verif (comment-only; compiled only with -tags verif).
+// C14: published record and summary messages follow doc/BINARY_FORMATS.md.
+//
+// The summaries header built by messageSummaries has 48 bytes; this is what the document's own
+// field table adds up to (its sentence "36 bytes long" in the summaries section is a copy of the
+// records section).
+
+package dastard
+
+//@ ghost field bytes.Buffer.n mathint
+//@ ghost field bytes.Buffer.acc intmap
+
+//@ extern func (*bytes.Buffer).Write
+//@   ensures err == nil && n == len(p) && b.n == old(b.n) + len(p)
+//@   ensures forall i int :: {b.acc[i]} i < old(b.n) ==> b.acc[i] == old(b.acc[i])
+//@   ensures forall i int :: {b.acc[i]} old(b.n) <= i && i < b.n ==> b.acc[i] == at(p, p.off + i - old(b.n))
+//@   modifies b.n, b.acc
+//@ extern func (*bytes.Buffer).Bytes
+//@   pure
+//@   ensures len(result) == b.n && allocated(result) && (forall p int :: {at(result, p)} result.off <= p && p < result.off + len(result) ==> at(result, p) == b.acc[p - result.off])
+
+//@ func rawTypeToBytes
+//@   trusted
+//@   ensures len(result) == 2 * len(slice_in) && allocated(result)
+//@   ensures forall p int :: {at(result, p)} result.off <= p && p < result.off + len(result) ==> at(result, p) == lebyte(at(slice_in, slice_in.off + (p - result.off) / 2), (p - result.off) % 2)
+//@   modifies nothing
+
+// FieldAt(h, o, w, v): the w bytes of h starting at offset o are the little-endian encoding of v.
+//@ pred FieldAt(h []byte, o int, w int, v int) := forall p int :: {at(h, p)} h.off + o <= p && p < h.off + o + w ==> at(h, p) == lebyte(v, p - h.off - o)
+// Little-endian decoding as a subscriber would do it.
+//@ pred Dec16(h []byte, o int) := at(h, h.off + o) + 256 * at(h, h.off + o + 1)
+//@ pred Dec32(h []byte, o int) := at(h, h.off + o) + 256 * at(h, h.off + o + 1) + 65536 * at(h, h.off + o + 2) + 16777216 * at(h, h.off + o + 3)
+//@ pred Dec64(h []byte, o int) := Dec32(h, o) + 4294967296 * Dec32(h, o + 4)
+
+//@ func messageRecords
+//@   props C14
+//@   uses lebyte_def
+//@   apply le64sum(unixnano(rec.trigTime)) && le64sum(rec.trigFrame % 18446744073709551616)
+//@   requires rec != nil
+//@   ensures parts: len(result) == 2 && len(result[0]) == 36 && len(result[1]) == 2 * len(rec.data)
+//@   ensures channel: FieldAt(result[0], 0, 2, uint16(rec.channelIndex))
+//@   ensures version: FieldAt(result[0], 2, 1, 0)
+//@   ensures typecode: FieldAt(result[0], 3, 1, ite(rec.signed, 2, 3))
+//@   ensures presamples: FieldAt(result[0], 4, 4, uint32(rec.presamples))
+//@   ensures samples: FieldAt(result[0], 8, 4, uint32(len(rec.data)))
+//@   ensures period: FieldAt(result[0], 12, 4, f32bits(rec.sampPeriod))
+//@   ensures volts: FieldAt(result[0], 16, 4, f32bits(rec.voltsPerArb))
+//@   ensures time: FieldAt(result[0], 20, 8, unixnano(rec.trigTime))
+//@   ensures frame: FieldAt(result[0], 28, 8, uint64(rec.trigFrame))
+//@   ensures payload: forall p int :: {at(result[1], p)} result[1].off <= p && p < result[1].off + len(result[1]) ==> at(result[1], p) == lebyte(at(rec.data, rec.data.off + (p - result[1].off) / 2), (p - result[1].off) % 2)
+//@   ensures subscribe: Dec16(result[0], 0) == rec.channelIndex % 65536 && at(result[0], result[0].off + 2) == 0 && at(result[0], result[0].off + 3) == ite(rec.signed, 2, 3)
+//@   ensures decode: Dec32(result[0], 4) == rec.presamples % 4294967296 && Dec32(result[0], 8) == len(rec.data) % 4294967296
+//@   ensures decode64: Dec64(result[0], 20) == unixnano(rec.trigTime) % 18446744073709551616 && Dec64(result[0], 28) == rec.trigFrame % 18446744073709551616
+//@   modifies nothing
+
+//@ func messageSummaries
+//@   props C14
+//@   uses lebyte_def
+//@   requires rec != nil
+//@   ensures parts: len(result) == 2 && len(result[0]) == 48 && len(result[1]) == 8 * len(rec.modelCoefs)
+//@   ensures channel: FieldAt(result[0], 0, 2, uint16(rec.channelIndex))
+//@   ensures version: FieldAt(result[0], 2, 2, 0)
+//@   ensures presamples: FieldAt(result[0], 4, 4, uint32(rec.presamples))
+//@   ensures samples: FieldAt(result[0], 8, 4, uint32(len(rec.data)))
+//@   ensures mean: FieldAt(result[0], 12, 4, f32bits(rec.pretrigMean))
+//@   ensures peak: FieldAt(result[0], 16, 4, f32bits(rec.peakValue))
+//@   ensures rms: FieldAt(result[0], 20, 4, f32bits(rec.pulseRMS))
+//@   ensures average: FieldAt(result[0], 24, 4, f32bits(rec.pulseAverage))
+//@   ensures residual: FieldAt(result[0], 28, 4, f32bits(rec.residualStdDev))
+//@   ensures time: FieldAt(result[0], 32, 8, unixnano(rec.trigTime))
+//@   ensures frame: FieldAt(result[0], 40, 8, rec.trigFrame)
+//@   ensures payload: forall p int :: {at(result[1], p)} result[1].off <= p && p < result[1].off + len(result[1]) ==> at(result[1], p) == lebyte(f64bits(at(rec.modelCoefs, rec.modelCoefs.off + (p - result[1].off) / 8)), (p - result[1].off) % 8)
+//@   ensures subscribe: Dec16(result[0], 0) == rec.channelIndex % 65536 && Dec16(result[0], 2) == 0
+//@   ensures decode: Dec32(result[0], 4) == rec.presamples % 4294967296 && Dec32(result[0], 8) == len(rec.data) % 4294967296
+//@   modifies nothing
